@@ -158,8 +158,8 @@ func init() {
 		},
 	})
 	core.Register(&core.Prop{
-		ID: "C07",
-		Rule: "the C06 corpus (all shape classes) plus annotation-free files; run histories of length 2-5 whose steps are drawn from {library call, CLI -f, -d, -p}; the bytes after run n+1 must equal the bytes after run n (n>=1) and annotation-free files must never change. distinct = distinct file content; non-trivial = file modified by run 1 (idempotence is not vacuous)",
+		ID:     "C07",
+		Rule:   "the C06 corpus (all shape classes) plus annotation-free files; run histories of length 2-5 whose steps are drawn from {library call, CLI -f, -d, -p}; the bytes after run n+1 must equal the bytes after run n (n>=1) and annotation-free files must never change. distinct = distinct file content; non-trivial = file modified by run 1 (idempotence is not vacuous)",
 		Shards: func(t core.Tier) int { return 16 },
 		Run:    runC07,
 		Check: func(r *core.Result, t core.Tier) {
@@ -173,15 +173,22 @@ func init() {
 	})
 	core.Register(&core.Prop{
 		ID: "C19",
-		Rule: "directories of 2-12 entries mixing valid annotated files, unannotated files, faulty .go files (syntax error, truncated, empty, binary junk), parseable-but-awkward files (@tag on a field without tag literal, malformed @tag text, comments merely mentioning @tag, grouped/local/alias/generic types, interpreted-string and empty tag literals), non-Go files containing annotated Go text, sub-directories and a directory named x.go, with faulty files sorting first/middle/last; processed by the CLI with -f, -d, -p. " +
+		Rule: "directories of 2-12 entries mixing valid annotated files, unannotated files, faulty .go files (syntax error, truncated, empty, binary junk), parseable-but-awkward files (@tag on a field without tag literal, malformed @tag text, comments merely mentioning @tag, grouped/local/alias/generic types, interpreted-string and empty tag literals, @tag values containing a backquote), non-Go files containing annotated Go text, sub-directories and a directory named x.go, with faulty files sorting first/middle/last; processed by the CLI with -f, -d, -p. " +
 			"oracle: exit status 0 and no panic text, unprocessable files byte-identical, every parseable .go file equals the C06 merge. distinct = distinct directory content hash; non-trivial = directory with >=1 faulty or awkward entry and >=1 processable annotated file",
 		Shards: func(t core.Tier) int { return 16 },
-		Run:    runC19,
+		Parent: func(p *core.ParentCtx) *core.Result {
+			res := core.DefaultParent(p)
+			if p.Tier == core.Thorough {
+				runFuzzTargets(res, "C19", []string{"FuzzInject"}) // coverage-guided: arbitrary bytes named *.go through ParseFile + WriteFile
+			}
+			return res
+		},
+		Run: runC19,
 		Check: func(r *core.Result, t core.Tier) {
 			if r.Counters["dirs_faulty_precedes_2_processable"] < 100 {
 				r.Inconc(fmt.Sprintf("too few directories in which a faulty file precedes >=2 processable ones: %d", r.Counters["dirs_faulty_precedes_2_processable"]))
 			}
-			for _, k := range []string{"fault|syntax", "fault|truncated", "fault|empty", "fault|binary", "awkward|no-literal", "awkward|malformed-tag", "awkward|grouped", "awkward|interpreted-literal", "awkward|empty-literal", "nongo", "subdir", "dir-named-go"} {
+			for _, k := range []string{"fault|syntax", "fault|truncated", "fault|empty", "fault|binary", "awkward|no-literal", "awkward|malformed-tag", "awkward|grouped", "awkward|interpreted-literal", "awkward|empty-literal", "awkward|backquote-value", "nongo", "subdir", "dir-named-go"} {
 				if r.Counters[k] < 20 {
 					r.Inconc(fmt.Sprintf("entry kind under-observed: %s=%d", k, r.Counters[k]))
 				}
@@ -349,13 +356,13 @@ func firstDiffLine(a, b []byte) string {
 // C19
 
 type c19Entry struct {
-	Name        string
-	Kind        string // processable, plain, fault|*, awkward|*, nongo, subdir, dir-named-go
-	Content     []byte
-	Parses      bool
-	Annotated   bool
-	IsDir       bool
-	SubFiles    map[string][]byte
+	Name      string
+	Kind      string // processable, plain, fault|*, awkward|*, nongo, subdir, dir-named-go
+	Content   []byte
+	Parses    bool
+	Annotated bool
+	IsDir     bool
+	SubFiles  map[string][]byte
 }
 
 func c19Awkward(rng *rand.Rand, kind string) string {
@@ -369,6 +376,9 @@ func c19Awkward(rng *rand.Rand, kind string) string {
 		return base + "type A struct {\n\tName string `json:\"name\"` // " + forms[rng.Intn(len(forms))] + "\n\tAge int32 `json:\"age\"` // @tag valid:\"ge=0\"\n}\n\n" + good
 	case "grouped":
 		return base + "type (\n\tA struct {\n\t\tName string `json:\"name\"` // @tag valid:\"required\"\n\t}\n\tB struct {\n\t\tAge int `json:\"age\"` // @tag valid:\"ge=0\"\n\t}\n)\n\nfunc f() {\n\ttype local struct {\n\t\tX int `json:\"x\"` // @tag valid:\"required\"\n\t}\n\t_ = local{}\n}\n\ntype Al = Inner\n\ntype G[T any] struct {\n\tV T `json:\"v\"` // @tag valid:\"required\"\n}\n\n" + good
+	case "backquote-value":
+		v := []string{"a`b", "`", "re='^`+$'", "x` json:`"}[rng.Intn(4)]
+		return base + "type A struct {\n\tName string `json:\"name\"` // @tag valid:\"" + v + "\"\n\tAge  int32 `json:\"age\"` // @tag valid:\"ge=0\"\n}\n\n" + good
 	case "interpreted-literal":
 		// also combined with comments that mention @tag but carry no key:"value" pair
 		cm := []string{"@tag valid:\"required\"", "@tag required", "see the @tag docs for details", "@tag valid:required"}[rng.Intn(4)]
@@ -387,7 +397,7 @@ func runC19(c *core.Ctx) {
 	rng := c.Rng("dirs")
 	D := c.Pick(100, 2000)
 	modes := []string{"-d", "-p", "-f", "-d", "-p*"}
-	awk := []string{"no-literal", "malformed-tag", "grouped", "interpreted-literal", "empty-literal"}
+	awk := []string{"no-literal", "malformed-tag", "grouped", "interpreted-literal", "empty-literal", "backquote-value"}
 	for d := 0; d < D; d++ {
 		dir := filepath.Join(c.WorkDir, fmt.Sprintf("d%d", d))
 		os.RemoveAll(dir)
